@@ -113,7 +113,7 @@ func LooksLikeObjectOrArray(raw []byte) bool {
 func Parse(queryType string, raw []byte) (parsed, inspected, firstToken int, querySatisfied bool) {
 	p := parserPool.Get().(*parserState)
 	defer func() {
-		verifExit(p, queryType, len(raw), parsed, inspected, firstToken, querySatisfied)
+		verifExit(p, queryType, raw, parsed, inspected, firstToken, querySatisfied)
 		// Avoid hanging on to too much memory in extreme input cases.
 		if len(p.currPath) > 128 {
 			p.currPath = nil
